@@ -53,12 +53,27 @@ def return_codes():
         'Definition return_codes : list (nat * string) :=\n  %s.\n' % clist(table)
 
 
+PRIMS = {'primitive': 'PPrimitive', 'collection': 'PCollection', 'interface': 'PInterface', 'record': 'PRecord', 'enum': 'PEnum',
+         'flags': 'PFlags', 'function': 'PFunction', 'error': 'PError'}
+
+
+def builtins(api):
+    rows = []
+    for t in api.internal_types:
+        rows.append('(%s, %s, %s, %s)' % (cstr(str(t.name)), cstrs([str(x) for x in t.namespace]), cstr(str(t.primitive.value)), cstrs(list(t.params))))
+    keys = list(api.generation_targets.keys())
+    return HEADER + '(* name, namespace, primitive kind, generic parameter names *)\n' \
+        'Definition builtin_types : list (string * list string * string * list string) :=\n  %s.\n\n' % clist(rows) + \
+        'Definition target_keys : list string := %s.\n' % cstrs(keys)
+
+
 def main(outdir):
     os.makedirs(outdir, exist_ok=True)
     from pydjinni import API
     api = API()
     write_if_changed(os.path.join(outdir, 'TargetTable.v'), target_table(api))
     write_if_changed(os.path.join(outdir, 'ReturnCodes.v'), return_codes())
+    write_if_changed(os.path.join(outdir, 'Builtins.v'), builtins(api))
     print('tables ok')
 
 
@@ -67,7 +82,7 @@ if __name__ == '__main__':
         main(sys.argv[1])
     except Exception:
         # fail closed: remove outputs so everything that depends on them stops building
-        for f in ('TargetTable.v', 'ReturnCodes.v'):
+        for f in ('TargetTable.v', 'ReturnCodes.v', 'Builtins.v'):
             p = os.path.join(sys.argv[1], f)
             if os.path.exists(p):
                 os.unlink(p)
